@@ -199,8 +199,9 @@ claim("C06",
            "data, weights, k, max_iter, init and a seed drawn from the generator seeded with random_state, writes no hyper-parameter; "
            "_kmeans_single_lloyd (real loop, break, final E-step): 1 <= n_iter <= max_iter, and whenever the centres still moved in the last iteration "
            "the E-step is run again on the RETURNED centres, so labels are Manhattan-nearest to them - when the last shift is exactly zero the labels rely on "
-           "the convergence argument (ghost flag, not proved; bounded). _init_centroids, _centers_dense (medians, relocation), _tolerance are ASSUMED; "
-           "centres within the data range is bounded only. pairwise_distances_argmin_min / manhattan_distances are assumed contracts. Bounded domain now "
+           "the convergence argument (ghost flag, not proved; bounded). _centers_dense (M-step: three real loops - weights per cluster, relocation of empty "
+           "clusters onto data points, medians) returns centres whose every coordinate lies within the range of that coordinate in the data, and that is "
+           "carried through the run, _fit_l1 and fit (cluster_centers_). _init_centroids and _tolerance are ASSUMED; numpy.median's bounds are assumed. pairwise_distances_argmin_min / manhattan_distances are assumed contracts. Bounded domain now "
            "includes the same data in units of 1e-9.",
       technique="deductive verification: Trace clauses for delegation, arg-min postconditions over a ghost Manhattan distance; z3")
 claim("C09",
